@@ -40,6 +40,7 @@ def run_checks(checks):
         r = sh(f"cd /verif && ./check {c}")
         lines = [l for l in r.stdout.splitlines() if l.startswith(("OK ", "VIOLATION"))]
         res[c] = {"exit": r.returncode, "line": lines[-1] if lines else r.stdout[-300:]}
+        sh(f"git -C /verif checkout -- evidence/{c}.json")   # the evidence of a mutated tree is not kept
     return res
 def main():
     want = set(sys.argv[1:])
